@@ -24,7 +24,7 @@ fn main() {
         std::process::exit(2);
     }
     let cmd = argv[1].clone();
-    if cmd == "probe" { probes::run(&argv[2]); return; }
+    if cmd == "probe" { if argv[2] == "handles" { probes::handles(); } else { probes::run(&argv[2]); } return; }
     let mut a = Args { prop: argv[2].clone(), seed: 1, n: 300, tier: "quick".into(), out: PathBuf::from("work") };
     let mut i = 3;
     while i < argv.len() {
